@@ -26,6 +26,7 @@ int nv_sem_wait(sem_t*);
 int nv_sem_trywait(sem_t*);
 int nv_sem_timedwait(sem_t*, const struct timespec*);
 int nv_clock_gettime(clockid_t, struct timespec*);
+int nv_usleep(useconds_t);
 void nv_yield(const char* where, const volatile void* addr);
 #ifdef __cplusplus
 }
@@ -50,6 +51,7 @@ void nv_yield(const char* where, const volatile void* addr);
 #define sem_trywait nv_sem_trywait
 #define sem_timedwait nv_sem_timedwait
 #define clock_gettime nv_clock_gettime
+#define usleep nv_usleep
 #ifdef __cplusplus
 template<typename T, typename V> static inline T nv_sync_add_and_fetch(volatile T* p, V v) { nv_yield("add_and_fetch", p); return __atomic_add_fetch(p, (T)v, __ATOMIC_SEQ_CST); }
 template<typename T> static inline T nv_sync_val_cas(volatile T* p, T o, T n) { nv_yield("cas", p); __atomic_compare_exchange_n(p, &o, n, false, __ATOMIC_SEQ_CST, __ATOMIC_SEQ_CST); return o; }
